@@ -34,7 +34,14 @@ type d6Hop struct {
 	kinds map[string]bool
 }
 
+type d6Key struct {
+	fn   *ssa.Function
+	call *ssa.Call // the call site the helper is analysed for (nil for the top function)
+}
+
 type d6Info struct {
+	deferClose map[string]bool // kinds of handles closed by a deferred call (runs at every return)
+	clobbered  bool            // a deferred function literal overwrites the error result unconditionally
 	fn       *ssa.Function
 	events   []fileEv
 	hops     []d6Hop
@@ -54,8 +61,8 @@ type d6Ctx struct {
 	w     *world.World
 	r     *report.RuleResult
 	top   *ssa.Function
-	infos map[*ssa.Function]*d6Info
-	sums  map[*ssa.Function]*d6Sum
+	infos map[d6Key]*d6Info
+	sums  map[d6Key]*d6Sum
 	busy  map[*ssa.Function]bool
 	nrep  int
 	nerr  int
@@ -124,12 +131,28 @@ func (c *d6Ctx) hasFileEffects(fn *ssa.Function, depth int) bool {
 	return false
 }
 
-func (c *d6Ctx) info(fn *ssa.Function) *d6Info {
-	if i, ok := c.infos[fn]; ok {
+// rebind makes the helper's parameters stand for the arguments of this call site only, so that a
+// helper used for several files (writeFileSync(path, data)) is read once per call with that call's path.
+func rebind(call *ssa.Call) {
+	f := call.Call.StaticCallee()
+	if f == nil || len(f.Params) != len(call.Call.Args) {
+		return
+	}
+	for i, p := range f.Params {
+		constParamBind[p] = []ssa.Value{call.Call.Args[i]}
+	}
+}
+
+func (c *d6Ctx) info(fn *ssa.Function, site *ssa.Call) *d6Info {
+	key := d6Key{fn, site}
+	if i, ok := c.infos[key]; ok {
 		return i
 	}
-	inf := &d6Info{fn: fn, tested: map[*ssa.Call]bool{}, retEvent: map[*ssa.Return]*ssa.Call{}}
-	c.infos[fn] = inf
+	if site != nil {
+		rebind(site)
+	}
+	inf := &d6Info{fn: fn, tested: map[*ssa.Call]bool{}, retEvent: map[*ssa.Return]*ssa.Call{}, deferClose: map[string]bool{}}
+	c.infos[key] = inf
 	handleKind := map[ssa.Value]string{}
 	for _, ci := range world.Calls(fn) {
 		call, ok := ci.(*ssa.Call)
@@ -217,6 +240,97 @@ func (c *d6Ctx) info(fn *ssa.Function) *d6Info {
 			}
 		}
 	}
+	// deferred Close of a handle (directly or inside a deferred function literal): runs at every return
+	for _, ci := range world.Calls(fn) {
+		d, ok := ci.(*ssa.Defer)
+		if !ok {
+			continue
+		}
+		closes := func(cc ssa.CallInstruction, bind func(ssa.Value) ssa.Value) {
+			f := cc.Common().StaticCallee()
+			var recv ssa.Value
+			if f != nil && f.String() == "(*os.File).Close" {
+				recv = cc.Common().Args[0]
+			} else if cc.Common().IsInvoke() && cc.Common().Method.Name() == "Close" {
+				recv = cc.Common().Value
+			}
+			if recv == nil {
+				return
+			}
+			ks := map[string]bool{}
+			resolve(bind(recv), 0, ks)
+			for k := range ks {
+				inf.deferClose[k] = true
+			}
+		}
+		if mc, ok := d.Call.Value.(*ssa.MakeClosure); ok {
+			lit := mc.Fn.(*ssa.Function)
+			// `defer func() { err = f.Close() }()`: the named error result is overwritten whatever the
+			// body returned, so an earlier failure is reported as success when the deferred call succeeds.
+			// (`if err == nil { err = cerr }` - a store on the edge where the result was tested nil - keeps it.)
+			for _, lb := range lit.Blocks {
+				for _, lin := range lb.Instrs {
+					st, ok := lin.(*ssa.Store)
+					if !ok || !world.IsErrorType(st.Val.Type()) {
+						continue
+					}
+					fv, ok := st.Addr.(*ssa.FreeVar)
+					if !ok {
+						continue
+					}
+					guarded := false
+					for dd := lb; dd != nil; dd = dd.Idom() {
+						iff := world.IfOf(dd)
+						if iff == nil || dd == lb {
+							continue
+						}
+						x, _, ok := world.NilTest(iff.Cond)
+						if !ok {
+							continue
+						}
+						if u, ok := x.(*ssa.UnOp); ok && u.X == ssa.Value(fv) {
+							guarded = true
+						}
+					}
+					if !guarded {
+						inf.clobbered = true
+					}
+				}
+			}
+			bind := func(v ssa.Value) ssa.Value {
+				// a load of a captured variable -> the captured alloc's value in fn
+				if u, ok := v.(*ssa.UnOp); ok {
+					if fv, ok := u.X.(*ssa.FreeVar); ok {
+						for i, x := range lit.FreeVars {
+							if x == fv && i < len(mc.Bindings) {
+								if al, ok := mc.Bindings[i].(*ssa.Alloc); ok {
+									for _, ref := range *al.Referrers() {
+										if st, ok := ref.(*ssa.Store); ok && st.Addr == ssa.Value(al) {
+											return st.Val
+										}
+									}
+								}
+								return mc.Bindings[i]
+							}
+						}
+					}
+				}
+				if fv, ok := v.(*ssa.FreeVar); ok {
+					for i, x := range lit.FreeVars {
+						if x == fv && i < len(mc.Bindings) {
+							return mc.Bindings[i]
+						}
+					}
+				}
+				return v
+			}
+			for _, cc := range world.Calls(lit) {
+				closes(cc, bind)
+			}
+		} else {
+			closes(d, func(v ssa.Value) ssa.Value { return v })
+		}
+	}
 	succ := func(b *ssa.BasicBlock, si int, call *ssa.Call) bool {
 		return world.ErrNilEdge(b, func(v ssa.Value) bool { return v == ssa.Value(call) }) == si
 	}
@@ -280,7 +394,7 @@ func (c *d6Ctx) successFacts(inf *d6Info, call *ssa.Call) world.Facts {
 	}
 	for _, h := range inf.helpers {
 		if h == call {
-			f |= c.summary(h.Call.StaticCallee()).okMust
+			f |= c.summary(h.Call.StaticCallee(), h).okMust
 		}
 	}
 	return f
@@ -332,7 +446,7 @@ func (c *d6Ctx) flow(inf *d6Info) (eg world.EdgeGen, gen, genMay world.InstrFn) 
 		// a helper that fails may already have replaced the manifest
 		for _, h := range inf.helpers {
 			if h == call {
-				s := c.summary(h.Call.StaticCallee())
+				s := c.summary(h.Call.StaticCallee(), h)
 				f |= s.failMay
 				if !inf.tested[call] {
 					f |= s.anyMay
@@ -344,26 +458,30 @@ func (c *d6Ctx) flow(inf *d6Info) (eg world.EdgeGen, gen, genMay world.InstrFn) 
 	return
 }
 
-func (c *d6Ctx) summary(fn *ssa.Function) *d6Sum {
-	if s, ok := c.sums[fn]; ok {
+func (c *d6Ctx) summary(fn *ssa.Function, site *ssa.Call) *d6Sum {
+	if s, ok := c.sums[d6Key{fn, site}]; ok {
 		return s
 	}
 	s := &d6Sum{}
-	c.sums[fn] = s
+	c.sums[d6Key{fn, site}] = s
 	if fn == nil || fn.Blocks == nil || c.busy[fn] {
 		return s
 	}
 	c.busy[fn] = true
 	defer delete(c.busy, fn)
-	inf := c.info(fn)
+	inf := c.info(fn, site)
 	eg, gen, genMay := c.flow(inf)
 	must := world.Must(fn, eg, gen, nil)
 	may := world.May(fn, eg, genMay, nil)
+	var atReturn world.Facts // established by deferred calls at every return
+	if inf.deferClose["manifest-tmp"] {
+		atReturn |= d6TC
+	}
 	first := true
 	for _, ret := range world.Returns(fn) {
 		rv := world.RetVals(ret)
-		fm := world.FactsAt(must, ret, gen, nil)
-		fy := world.FactsAt(may, ret, genMay, nil)
+		fm := world.FactsAt(must, ret, gen, nil) | atReturn
+		fy := world.FactsAt(may, ret, genMay, nil) | atReturn
 		s.anyMay |= fy
 		isErr := len(rv) > 0 && world.IsErrorType(rv[len(rv)-1].Type())
 		switch {
@@ -385,6 +503,14 @@ func (c *d6Ctx) summary(fn *ssa.Function) *d6Sum {
 			s.anyMay |= ok
 		default:
 			s.failMay |= fy
+			if inf.clobbered {
+				// the failure may be turned into success by the deferred overwrite of the result
+				if first {
+					s.okMust, first = fm, false
+				} else {
+					s.okMust &= fm
+				}
+			}
 		}
 	}
 	if first {
@@ -396,8 +522,8 @@ func (c *d6Ctx) summary(fn *ssa.Function) *d6Sum {
 	return s
 }
 
-func (c *d6Ctx) report(fn *ssa.Function, entryMust, entryMay world.Facts, depth int) {
-	inf := c.info(fn)
+func (c *d6Ctx) report(fn *ssa.Function, site *ssa.Call, entryMust, entryMay world.Facts, depth int) {
+	inf := c.info(fn, site)
 	eg, gen, genMay := c.flow(inf)
 	must := world.MustFrom(fn, entryMust, eg, gen, nil)
 	may := world.MayFrom(fn, entryMay, eg, genMay, nil)
@@ -550,7 +676,7 @@ func (c *d6Ctx) report(fn *ssa.Function, entryMust, entryMay world.Facts, depth 
 	}
 	if depth < 2 {
 		for _, h := range inf.helpers {
-			c.report(h.Call.StaticCallee(), world.FactsAt(must, h, gen, nil), world.FactsAt(may, h, genMay, nil), depth+1)
+			c.report(h.Call.StaticCallee(), h, world.FactsAt(must, h, gen, nil), world.FactsAt(may, h, genMay, nil), depth+1)
 		}
 	}
 }
@@ -586,7 +712,7 @@ func (c *d6Ctx) paths(fn *ssa.Function, depth int, man, st *[]string) {
 			}
 		default:
 			if world.InModule(f) && world.PkgOf(f) == world.PkgOf(fn) && f != fn {
-				bindParams(call)
+				rebind(call)
 				c.paths(f, depth+1, man, st)
 			}
 		}
@@ -599,8 +725,8 @@ func ruleD6(w *world.World, r *report.RuleResult) {
 		r.Err = fmt.Errorf("snapshot.Engine.TakeSnapshot not found")
 		return
 	}
-	c := &d6Ctx{w: w, r: r, top: ts, infos: map[*ssa.Function]*d6Info{}, sums: map[*ssa.Function]*d6Sum{}, busy: map[*ssa.Function]bool{}}
-	c.report(ts, 0, 0, 0)
+	c := &d6Ctx{w: w, r: r, top: ts, infos: map[d6Key]*d6Info{}, sums: map[d6Key]*d6Sum{}, busy: map[*ssa.Function]bool{}}
+	c.report(ts, nil, 0, 0, 0)
 	fname := world.FuncName(ts)
 	if c.nrep == 0 {
 		r.Fail(fname+"|a:manifest-replace-after-state-durable", w.Pos(ts.Pos()), "TakeSnapshot never publishes a manifest for the new snapshot")
